@@ -70,7 +70,7 @@ Definition code_ts_fixed : bool := true.
 Definition code_keepex_fixed : bool := true.
 Definition code_exzero_fixed : bool := true.      (* notes/C36_fix3.diff *)
 Definition code_exreset_fixed : bool := true.     (* notes/C36_fix4.diff *)
-Definition code_validate_fixed : bool := false.    (* notes/C36_fix5.diff *)
+Definition code_validate_fixed : bool := true.    (* notes/C36_fix5.diff *)
 
 (* ---- agree ----------------------------------------------------------------------------------- *)
 Definition agree_proto (c : case) : bool :=
